@@ -19,7 +19,7 @@ RULE = ("per transform (Grad, Jac, Jac-chaining, Init, Diagonalize, Stack, Selec
         "chunk sizes; compared with torch.autograd VJPs on a twin graph or a NumPy restatement; non-trivial = >= 2 keys of which two "
         "have the same number of elements, or a mixed 0-d / n-d key set; distinct = case sha1")
 ASSUMPTIONS = ["torch.autograd.grad with explicit cotangents on a twin graph is the reference VJP"]
-N = {"quick": 320, "thorough": 60000}
+N = {"quick": 320, "thorough": 240000}
 SHAPES = [(), (1,), (2,), (3,), (2, 3), (3, 2), (1, 2), (2, 1), (1, 1), (2, 1, 2), (1, 3, 1), (2, 2, 1, 2), (1, 1, 1, 1), (6,), (4,)]
 KINDS = ["grad", "jac", "chain", "init", "diagonalize", "stack", "select", "aggregate"]
 TOL = 1e-12
